@@ -286,6 +286,21 @@ def child_python(prog: str, args=(), flags=(), env_extra=None, timeout=180):
     return json.loads(r.stdout.decode("ascii"))
 
 
+def copies_equal(devs: List[Dev], sub: str, obj, view, want):
+    """A deep copy and a pickle round trip of a library object are usable objects that show what the original shows
+    (``view(copy) == want``).  Applications keep, queue and ship these objects; shallow copies are not examined."""
+    import copy
+    import pickle
+
+    for how, mk in (("deepcopy", lambda: copy.deepcopy(obj)), ("pickle", lambda: pickle.loads(pickle.dumps(obj)))):
+        try:
+            c = mk()
+        except Exception as e:  # noqa: BLE001 - the object cannot be copied at all
+            devs.append(Dev(f"{sub}.{how}:raises_{type(e).__name__}", f"{type(obj).__name__}: {e}"[:200]))
+            continue
+        eq(devs, f"{sub}.{how}", view(c), want)
+
+
 def pack_fresh(devs: List[Dev], sub: str, pack, want: bytes, **kw):
     """pack() must hand out octets the caller may modify: scribbling over a returned buffer must not
     change what the next pack() of the unchanged object returns."""
